@@ -18,7 +18,7 @@ def run(ctx):
     pb, eb = (2, 0) if q else (2, 1)
     # variant 1 (lazy creation of the default pool: 512 volatile writes of the queue constructor are scheduling points) and
     # variant 2 (one-slot queue) have several hundred choice points per execution: one preemption (two in the thorough tier for 2)
-    bounds = {0: pb, 1: 1, 2: pb, 3: pb, 4: pb, 5: pb, 6: pb, 7: pb, 8: 1, 9: pb} if q else {0: 3, 1: 2, 2: 3, 3: 3, 4: 3, 5: 3, 6: 3, 7: 3, 8: 2, 9: 3}
+    bounds = {0: pb, 1: 1, 2: pb, 3: pb, 4: pb, 5: pb, 6: pb, 7: pb, 8: 1, 9: pb, 10: 0} if q else {0: 3, 1: 2, 2: 3, 3: 3, 4: 3, 5: 3, 6: 3, 7: 3, 8: 2, 9: 3, 10: 1}
     jobs = []
     for v in sorted(bounds):
         jobs += SL.job(b, "future", v, bounds[v], eb, extra=["--horizon", "20000", "--spurious", "0", "--delay-bounded", "1"], shards=16)
@@ -28,10 +28,10 @@ def run(ctx):
         jobs += SL.job(b, "future", v, fpb, 0, extra=["--plain", "1", "--horizon", "200000", "--spurious", "0", "--delay-bounded", "1"], shards=2 if q else 16)
     ctx.run_jobs(jobs, parallel=16)
     pb = max(bounds.values())
-    cov = SL.coverage(ctx, "scenarios F1-F10 on the real Future/ThreadPool (Future.cpp included into the scenario unit to install pools with queue size 1/2 and to shut the "
+    cov = SL.coverage(ctx, "scenarios F1-F11 on the real Future/ThreadPool (Future.cpp included into the scenario unit to install pools with queue size 1/2 and to shut the "
                            "pool down): one client with result conversion and destructor; two clients racing for the lazy pool creation; two clients on a one-slot queue "
                            "(back-pressure path); three futures started before any join; abort; the same Future started twice; clock jumps that trigger the shrink branch; "
-                           "client + main on a one-slot queue with one permanent worker; growth to three workers followed by five idle periods with one call each (workers are retired one by one); an aborted call followed by a fresh start of the same Future.  Every schedule with <= %d preemptions and <= %d environment deviation; "
+                           "client + main on a one-slot queue with one permanent worker; growth to three workers followed by five idle periods with one call each (workers are retired one by one); an aborted call followed by a fresh start of the same Future; every start() overload (free and member functions, 0..5 parameters, with and without result) once with distinct argument values.  Every schedule with <= %d preemptions and <= %d environment deviation; "
                            "oracle: executed exactly once with the given argument, join/conversion/destructor only after the body finished, converted value, "
                            "isAborted/isFinished, deadlock/livelock verdict of the scheduler, guard allocator (call record), primitive registry (no operation on a destroyed "
                            "signal), heap balance after pool shutdown. Fine tier: the same scenarios with every plain memory access as a scheduling point, <= %d preemption(s)" % (pb, eb, fpb),
